@@ -15,6 +15,8 @@ func init() { register("C16", checkC16) }
 
 func checkC16(c *Ctx) {
 	defer c16SessionID(c)
+	defer c16Ekm(c)
+	defer msgFrozenAfterMarshal(c, "K-MSG-frozen")
 	defer sharedSliceImmutable(c, "L-PUBLISHED", "gmtls", "sessionTicketKeys", 4,
 		"the published ticket-key slice is replaced as a whole, never written in place",
 		"clones of the Config (and configs returned by GetConfigForClient) share the slice: refilling it in place on rotation silently changes the keys of the clones, whose own tickets then stop resuming")
@@ -837,4 +839,135 @@ func pnameOfRecv(f *ssa.Function) string {
 		return "?"
 	}
 	return pname(f.Params[0])
+}
+
+// c16Ekm: both ends of a connection hold the exported-keying-material closure after ANY completed handshake — full or
+// resumed. Every function that stores Conn.ekm (the handshake drivers) can return nil only after that store: with the
+// edges into the storing block(s) removed, no successful return is reachable. (An assignment moved into the
+// full-handshake branch leaves a resumed connection with a nil closure; ExportKeyingMaterial then panics on one end.)
+func c16Ekm(c *Ctx) {
+	rule := "K-C16-restore"
+	storesEkm := func(f *ssa.Function) []ssa.Instruction {
+		var out []ssa.Instruction
+		instrsOf(f, func(_ *ssa.BasicBlock, in ssa.Instruction) {
+			if st, ok := in.(*ssa.Store); ok {
+				if fa, isFA := st.Addr.(*ssa.FieldAddr); isFA && fieldName(fa.X.Type(), fa.Field) == "ekm" && strings.HasSuffix(fa.X.Type().String(), "gmtls.Conn") {
+					out = append(out, st)
+				}
+			}
+		})
+		return out
+	}
+	// always(f): f cannot return successfully without having assigned Conn.ekm — itself, or through a callee with
+	// the same property (depth 2)
+	var always func(f *ssa.Function, depth int) (bool, *ssa.BasicBlock)
+	always = func(f *ssa.Function, depth int) (bool, *ssa.BasicBlock) {
+		spec, has := defaultResultSpec(f)
+		if !has || f.Blocks == nil {
+			return false, nil
+		}
+		marks := storesEkm(f)
+		if depth < 2 {
+			for _, ci := range allCalls(f) {
+				if sc := ci.Common().StaticCallee(); sc != nil && inRepo(sc) && sc != f && sc.Blocks != nil {
+					if len(storesEkm(sc)) > 0 {
+						if ok, _ := always(sc, depth+1); ok {
+							// the callee's own error must stop the caller: only count it if its result is tested —
+							// conservative: count the call as a mark only when it is a plain Call instruction
+							if _, isCall := ci.(*ssa.Call); isCall {
+								marks = append(marks, ci)
+							}
+						}
+					}
+				}
+			}
+		}
+		if len(marks) == 0 {
+			return false, f.Blocks[0]
+		}
+		cut := map[edge]bool{}
+		for _, m := range marks {
+			if m.Block() == f.Blocks[0] {
+				return true, nil
+			}
+			for _, p := range m.Block().Preds {
+				cut[edge{p, m.Block()}] = true
+			}
+		}
+		r, w := canReachSuccess(f.Blocks[0], nil, successExits(f, spec), mergeEdges(cut, deadEdges(f)))
+		return !r, w
+	}
+	drivers := []string{"(*Conn).serverHandshake", "(*Conn).serverHandshakeGM", "(*clientHandshakeState).handshake", "(*clientHandshakeStateGM).handshake", "runServerHandshake", "runServerHandshakeGM"}
+	for _, name := range drivers {
+		f := c.Fn("gmtls", name)
+		if f == nil {
+			c.Missing(rule, "gmtls."+name, "handshake driver", "not found")
+			continue
+		}
+		ok, w := always(f, 0)
+		c.Check(ok, rule, fname(f), "a completed handshake has set the exported-keying-material closure", "", "the handshake driver can return nil at "+c.P.pos(lastPos(w))+" on a path that has not assigned Conn.ekm (e.g. the abbreviated handshake, when the assignment sits in the full-handshake branch): ExportKeyingMaterial on that connection calls a nil closure, so the two ends do not hold equal keying material", lastPos(w))
+	}
+}
+
+// msgFrozenAfterMarshal: handshake messages cache their encoding (marshal() stores m.raw and returns it on every later
+// call). A field assigned AFTER the first marshal() of the same message object is therefore never sent — the peer and
+// the transcript see the old value (a ServerHello without the session_ticket extension although a NewSessionTicket
+// follows). Rule: no store into a field of a *…Msg object is reachable from a marshal() call on that object.
+func msgFrozenAfterMarshal(c *Ctx, rule string) {
+	n := 0
+	for _, f := range c.P.RepoFuncs("gmtls") {
+		if strings.HasSuffix(c.P.relFile(f.Pos()), "_test.go") || f.Name() == "marshal" || f.Name() == "unmarshal" {
+			continue
+		}
+		// marshal calls by receiver object
+		type mc struct {
+			call ssa.Instruction
+			recv ssa.Value
+		}
+		var mcs []mc
+		for _, ci := range allCalls(f) {
+			sc := ci.Common().StaticCallee()
+			if sc == nil || sc.Name() != "marshal" || !inRepo(sc) || len(ci.Common().Args) == 0 {
+				continue
+			}
+			mcs = append(mcs, mc{ci, ci.Common().Args[0]})
+		}
+		if len(mcs) == 0 {
+			continue
+		}
+		sameObj := func(a, b ssa.Value) bool {
+			if a == b {
+				return true
+			}
+			ka, kb := addrKey(a), addrKey(b)
+			return ka != "" && ka == kb
+		}
+		k := 0
+		instrsOf(f, func(_ *ssa.BasicBlock, in ssa.Instruction) {
+			st, ok := in.(*ssa.Store)
+			if !ok {
+				return
+			}
+			fa, ok := st.Addr.(*ssa.FieldAddr)
+			if !ok || fieldName(fa.X.Type(), fa.Field) == "raw" {
+				return
+			}
+			t := strings.TrimPrefix(fa.X.Type().String(), "*")
+			if !strings.HasSuffix(t, "Msg") && !strings.HasSuffix(t, "MsgGM") {
+				return
+			}
+			for _, m := range mcs {
+				if sameObj(m.recv, fa.X) && instrReaches(m.call, st, nil) && m.call != ssa.Instruction(st) {
+					// a later marshal of the same object must exist for the stale encoding to matter; report the store
+					k++
+					n++
+					c.Violated(rule, fname(f), fmt.Sprintf("field %s of a message is not assigned after the message was marshalled #%d", fieldName(fa.X.Type(), fa.Field), k), "the field is assigned on a path after marshal() was called on the same message: marshal() returns the cached encoding from then on, so the value never reaches the peer or the transcript", st.Pos())
+					return
+				}
+			}
+		})
+	}
+	if n == 0 {
+		c.Holds(rule, "gmtls", "no message field is assigned after that message's marshal()", "", token.NoPos)
+	}
 }
